@@ -118,7 +118,7 @@ def run(chk):
     _TreeDist.get_bipartition = staticmethod(spy)
     try:
         cases = []
-        n = chk.n(1200, 6000)
+        n = chk.n(1200, 24000)
         for it in range(n):
             k = rng.choice([4, 4, 5, 5, 6, 7, 8, chk.n(9, 12)])
             ta = rand_tree(rng, range(k))
@@ -135,8 +135,8 @@ def run(chk):
             for _ in range(chk.n(3, 10)):
                 ta = rand_tree(rng, range(k))
                 orders = list(all_orders(ta))
-                if len(orders) > chk.n(150, 2000):
-                    orders = rng.sample(orders, chk.n(150, 2000))
+                if len(orders) > chk.n(150, 8000):
+                    orders = rng.sample(orders, chk.n(150, 8000))
                 for tb in orders:
                     cases.append((k, ta, tb, False, 'all-orders'))
         for k, ta, tb, lengths, sname in cases:
